@@ -139,12 +139,30 @@ class SymTable(dict):
         c = getattr(self, '_sx_keys_cache', None)
         if c is None or c[0] != len(self):
             keys = sorted(kk for kk in dict.keys(self) if isinstance(kk, int) and not isinstance(kk, bool))
-            runs = []
-            for v in keys:
-                if runs and runs[-1][1] == v - 1:
-                    runs[-1][1] = v
-                else:
-                    runs.append([v, v])
+            # membership is encoded as a union of intervals; keys that are regularly spaced (event ids are mostly
+            # multiples of 4) are grouped by their low bits and compared after shifting those out, whichever
+            # shift gives the fewest intervals
+            best = None
+            for shift in range(0, 5):
+                groups = {}
+                for v in keys:
+                    groups.setdefault(v & ((1 << shift) - 1), []).append(v >> shift)
+                enc = {}
+                n = 0
+                for low, qs in groups.items():
+                    rr = []
+                    for q in qs:
+                        if rr and rr[-1][1] == q - 1:
+                            rr[-1][1] = q
+                        else:
+                            rr.append([q, q])
+                    enc[low] = rr
+                    n += len(rr)
+                if best is None or n < best[0]:
+                    best = (n, shift, enc)
+                if keys and keys[0] < 0:
+                    break
+            runs = (best[1], best[2]) if best else (0, {})
             c = (len(self), keys, runs)
             self._sx_keys_cache = c
             self._sx_member_terms = {}
@@ -159,13 +177,19 @@ class SymTable(dict):
         hit = cache.get(i)
         if hit is not None and hit[0].eq(k.e):
             return SymBool(hit[1]) if hit[1] is not True and hit[1] is not False else hit[1]
-        parts = []
-        for lo, hi in runs:           # membership as a union of intervals (same set, smaller term)
-            if lo == hi:
-                parts.append(k.e == lo)
-            else:
-                parts.append(z3.And(k.e >= lo, k.e <= hi))
-        t = z3.simplify(z3.Or(*parts) if len(parts) > 1 else parts[0])
+        shift, enc = runs
+        q = (k.e >> shift) if shift else k.e
+        alts = []
+        for low, rr in enc.items():
+            parts = []
+            for lo, hi in rr:
+                parts.append(q == lo if lo == hi else z3.And(q >= lo, q <= hi))
+            t = z3.Or(*parts) if len(parts) > 1 else parts[0]
+            if shift:
+                t = z3.And((k.e & ((1 << shift) - 1)) == low, t)
+            alts.append(t)
+        t = z3.Or(*alts) if len(alts) > 1 else alts[0]
+        t = z3.simplify(t)
         r = True if z3.is_true(t) else False if z3.is_false(t) else t
         if len(cache) > 4096:
             cache.clear()
@@ -182,9 +206,13 @@ class SymTable(dict):
             if not bool(self._member(k)):
                 raise KeyError(k)
             keys = self._keys()[1]
-            if len(keys) <= self.sx_small:
+            if len(keys) <= min(self.sx_small, 16):
                 i = eng().choose([k.e == kk for kk in keys])
                 return dict.__getitem__(self, keys[i])
+            if len(keys) <= self.sx_small:
+                from .values import signed
+                v = signed(eng().choose_value(k.e))
+                return dict.__getitem__(self, v)
             return make_atom('lookup', k, spec=self.sx_name, extra=self)
         return dict.__getitem__(self, k)
 
